@@ -367,7 +367,95 @@ def rule_offset_relative(ctx, rule="C20/offset-relative-to-copy"):
     ctx.floor(R, "scans / sanitizer calls with a stack-pointer offset", n, 3)
 
 
+def rule_scan_covers_words(ctx, R="C20/scan-covers-words"):
+    """'a pointer-aligned word at or above its stack pointer': stack_has_pointer_to_mapping starts at sp_offset rounded UP to the word
+    size and examines every word that fits, i.e. it goes on while offset + 8 <= len(stack_copy) (the last word included)"""
+    from engine.paths import switch_atom
+    b = ctx.body(R, SHP)
+    if b is None:
+        return
+    o = Origin(b)
+    loops = b.loops()
+    if len(loops) != 1:
+        ctx.unproven(R, "loop", b.where(0), "expected one scan loop (found %d)" % len(loops))
+        return
+    h, body = list(loops.items())[0]
+    cand = []
+    for x in sorted(body):
+        if b.term(x)["k"] == "switch" and any(s_ not in body for s_ in b.succs(x, unwind=False)):
+            a, _ = switch_atom(b, o, x)
+            if a[0] == "bin" and any((q[0] == "len" or (q[0] == "call" and q[1].split("::")[-1] == "len")) for q in walk(a)):
+                cand.append((x, a))
+    if len(cand) != 1:
+        ctx.unproven(R, "bound", b.where(h), "cannot isolate the loop bound (a comparison against stack_copy.len()): %d candidates" % len(cand))
+        return
+    x, atom = cand[0]
+
+    def is_len(e):
+        e = core(e)
+        return (e[0] == "len" and root(strip(e[1])) == ("param", 2)) or (e[0] == "call" and e[1].split("::")[-1] == "len" and e[2] and root(strip(e[2][0])) == ("param", 2))
+
+    def is_off(e):
+        e = core(e)
+        return e[0] in ("phi", "loop") and any(isinstance(q, tuple) and q and q[0] == "loop" for q in walk(e))
+    bad = []
+    try:
+        for L in (8, 16, 24, 4096):
+            for O in sorted({0, 8, 16, max(L - 16, 0), L - 8, L - 7, L}):
+                def leaf(e, L=L, O=O):
+                    if is_len(e):
+                        return (L, "usize")
+                    if is_off(e):
+                        return (O, "usize")
+                    return None
+                ev = ipe.Eval({}, {}, leaf=leaf)
+                v = ev.val(("bin", atom[1], core(atom[2]), core(atom[3]), "usize"))[0]
+                stays = None
+                for (tgt, lab) in b.succ_edges(x):
+                    if lab[0] != "sw":
+                        continue
+                    if (lab[1] == v) or (lab[1] == "otherwise" and v not in [l2[1] for (_, l2) in b.succ_edges(x) if l2[0] == "sw" and l2[1] != "otherwise"]):
+                        stays = tgt in body
+                if stays is None:
+                    raise ipe.Unsupported("switch targets")
+                if stays != (O + 8 <= L):
+                    bad.append("len=%d offset=%d -> %s" % (L, O, "examined" if stays else "not examined"))
+    except ipe.Unsupported as e:
+        ctx.unproven(R, "bound", b.where(x), "cannot evaluate the loop bound: %s" % e)
+        return
+    ctx.check(not bad, R, "bound", b.where(x), "the scan continues iff offset + 8 <= stack_copy.len(): every whole word up to the end of the copy is examined (28 points)",
+              "the scan does not examine exactly the words that fit: %s" % "; ".join(bad[:4]))
+    # initial offset: sp_offset rounded up to a multiple of the word size
+    offs = [a for a in (core(atom[2]), core(atom[3])) if is_off(a)]
+    init = None
+    if offs:
+        def leaves_(e):
+            e = core(e)
+            if e[0] == "phi":
+                for y in e[1]:
+                    yield from leaves_(y)
+            elif not any(isinstance(q, tuple) and q and q[0] == "loop" for q in walk(e)):
+                yield e
+        cands = {nosite(z) for z in leaves_(offs[0])}
+        if len(cands) == 1:
+            init = list(cands)[0]
+    if init is None:
+        ctx.unproven(R, "start", b.where(h), "cannot isolate the initial offset of the scan")
+        return
+    badi = []
+    try:
+        for sp in (0, 1, 7, 8, 9, 15, 16, 4095):
+            got = ipe.Eval({("param", 3): sp}).val(core(init))[0]
+            if got != ((sp + 7) & ~7):
+                badi.append("sp_offset=%d -> %d" % (sp, got))
+    except ipe.Unsupported as e:
+        ctx.unproven(R, "start", b.where(h), "cannot evaluate the initial offset: %s" % e)
+        return
+    ctx.check(not badi, R, "start", b.where(h), "the scan starts at sp_offset rounded up to the next word boundary", "the initial offset is not align_up(sp_offset, 8): %s" % badi[:3])
+
+
 def run(ctx):
+    rule_scan_covers_words(ctx)
     # principal_mapping_address is resolved with find_mapping_no_bias: it has to be the order-independent scan (the mapping list is not address-sorted)
     from rules import c06
     c06.rule_find_mapping(ctx, R="C20/principal-lookup", fn="find_mapping_no_bias", system_range=True)
